@@ -132,6 +132,11 @@ def dictSet {κ ν : Type} [DecidableEq κ] : List (κ × ν) → κ → ν → 
   | [], k, v => [(k, v)]
   | (k', v') :: t, k, v => if k' = k then (k, v) :: t else (k', v') :: dictSet t k v
 
+/-- `d.get(k)` -/
+def dictGet {κ ν : Type} [DecidableEq κ] : List (κ × ν) → κ → Option ν
+  | [], _ => none
+  | (k', v') :: t, k => if k' = k then some v' else dictGet t k
+
 def dictOf {κ ν : Type} [DecidableEq κ] (kvs : List (κ × ν)) : List (κ × ν) :=
   kvs.foldl (fun d kv => dictSet d kv.1 kv.2) []
 
@@ -172,7 +177,7 @@ inductive ParseErr where
 deriving DecidableEq, Repr
 
 /-- `md.get(key, b"")` -/
-def mdGet (md : Metadata) (k : Bytes) : Bytes := (md.lookup k).getD []
+def mdGet (md : Metadata) (k : Bytes) : Bytes := (dictGet md k).getD []
 
 def decodeMd (md : Metadata) (k : Bytes) : Except ParseErr (List Char) :=
   match decodeUtf8 (mdGet md k) with
